@@ -49,6 +49,32 @@ check("C19", "model_checking", IMP + "; cgo layout oracle",
       "Comment text compared line-wise trimmed (gofmt may re-indent).",
       "DESIGN.md §3 C19", "E2+E1")
 
+check("C08", "model_checking",
+      "explicit-state BFS over the real File + fragments with File.Render / RenderWithFile themselves in the operation alphabet; name-stability and repeatability invariant in every distinct state",
+      "All histories up to the depth bound of additions, renders, fragment renders, late ImportName/ImportAlias (incl. dot), Anon, prefix and NoFormat are executed on the implementation; every state renders everything twice and compares with all names observed earlier in the history.",
+      "Anon only on never-referenced paths; unused imports caused by fragment renders are allowed; longer histories are outside the bound.",
+      "DESIGN.md §3 C08", "E2")
+check("C10", "fault_enumeration",
+      "exhaustive enumeration of writer answer sequences (ok / error / short write+error at every Write call, via the choice-point explorer) x entry points x valid/invalid trees, and of filesystem situations for Save",
+      "Every answer sequence of the caller's writer is explored to exhaustion whatever number of Write calls the implementation makes; every listed filesystem situation is produced on a real temp directory.",
+      "EACCES cannot be produced as root; writers honour the io.Writer contract.",
+      "DESIGN.md §3 C10", "E1+E4")
+check("C07", "model_checking",
+      "environment model checking: source-instrumented map ranges; every permutation at every dynamic range execution within a deviation bound + uniform + native runs in fresh processes; single-outcome oracle",
+      "The iteration order of EVERY dynamic `range` over a map inside jennifer is decided by the explorer (the instrumenter finds the ranges by go/types on the current tree), so order dependence is found deterministically instead of by repetition.",
+      "Per-site enumeration complete for maps <= 4 entries; at most 2 (quick) / 3 (thorough) deviating range executions per run.",
+      "DESIGN.md §3 C07", "E4+E1")
+check("C16", "model_checking",
+      "exhaustive enumeration of Dicts (multisets of key/value kinds, fresh key objects) x every map iteration order (instrumented ranges), parsed-output oracle",
+      "Every Dict of the bounded space is rendered under every iteration order of each range execution (deviation-bounded) and the parsed literal compared with the expected multiset, order and layout.",
+      "Key/value expressions outside the 9x6 kinds and larger Dicts are outside the bound.",
+      "DESIGN.md §3 C16", "E4+E1")
+check("C09", "model_checking",
+      "stateless model checking of goroutine interleavings: cooperative scheduler with scheduling points at every access to package-level state (inserted from go/types), preemption-bounded DFS; plus all render orders / sub-statement sharings; plus a separate free-running -race pass",
+      "All interleavings of 2-3 independent build+render jobs with <= 2 (quick) / 3 (thorough) preemptions, all 120 orders of 5 jobs, all sharings of 5 parts between 4 File configurations; data-race freedom is decided by the race detector pass and the explorer's write report, as a cooperative scheduler cannot see unsynchronised accesses.",
+      "Sequential consistency; scheduling points only at jennifer's own package-level variables; more jobs / preemptions are outside the bound.",
+      "DESIGN.md §3 C09", "E3+E4+E1")
+
 NOT_YET = {}
 ids = [json.loads(l)['id'] for l in open('/verif/properties.jsonl')]
 m = {
@@ -62,8 +88,10 @@ m = {
   "add_only": True
  },
  "engines": [
-  {"name": "E1", "path": "internal/explore", "serves_properties": ["C03","C04","C05","C06","C11","C12","C17","C19"], "kind_free_text": "stateless deviation-bounded DFS over choice points of generator programs + parallel enumeration of finite domains"},
-  {"name": "E2", "path": "internal/statespace", "serves_properties": ["C03","C04","C06","C19","C20"], "kind_free_text": "explicit-state BFS over the real implementation (state = history replayed on fresh objects, canonical key by reflection, invariant in every distinct state)"},
+  {"name": "E1", "path": "internal/explore", "serves_properties": ["C03","C04","C05","C06","C07","C09","C10","C11","C12","C16","C17","C19"], "kind_free_text": "stateless deviation-bounded DFS over choice points of generator programs + parallel enumeration of finite domains"},
+  {"name": "E2", "path": "internal/statespace", "serves_properties": ["C03","C04","C06","C08","C19","C20"], "kind_free_text": "explicit-state BFS over the real implementation (state = history replayed on fresh objects, canonical key by reflection, invariant in every distinct state)"},
+  {"name": "E3", "path": "internal/sched", "serves_properties": ["C09"], "kind_free_text": "cooperative scheduler over real goroutines, preemption-bounded schedule enumeration through E1, snapshot/restore of package-level variables"},
+  {"name": "E4", "path": "cmd/instr + internal/env", "serves_properties": ["C07","C09","C16"], "kind_free_text": "go/types-driven source instrumenter (overlay build): controlled map iteration order, scheduling points at package-level state; fault-injecting writer"},
  ],
  "checks": [],
  "not_applicable": [],
